@@ -166,6 +166,14 @@ func init() {
 	rt("run", "(let ((c (make-channel 1))) (run (channel-push c (+ x 1))) (channel-pop c))")
 	rt("recover", "(recover (+ x 1) (e 0))")
 	rt("recover", "(recover (/ 6 (- x 1)) (e 'caught))")
+	// staged compilation: a branch that is itself a multi-part form, first taken on a later evaluation
+	rt("if", "(if (> x 1) (let ((a (* x 2))) (if (> a 3) (list a (* a 10)) 1)) (list (- x)))")
+	rt("cond", "(cond ((> x 1) (when (> x 0) (* x 7))) (t (unless (> x 1) (+ x 9))))")
+	rt("case", "(case x (1 (if (= x 1) (list x 'one) 0)) (2 (let ((y (+ x 1))) (* y y))))")
+	rt("and", "(and (or (> x 1) (= x 1)) (if (> x 1) (list x) (list x x)))")
+	rt("lambda", "(funcall (lambda (a) (if (> a 1) (* a x) (- a x))) x)")
+	rt("let", "(let ((a (if (> x 1) (* x 3) (+ x 3)))) (when (> a 5) (setq a (- a))) a)")
+	rt("dotimes", "(let ((s 0)) (dotimes (i 3 s) (if (> x 1) (setq s (+ s (* i x))) (setq s (- s i)))))")
 	for i := range reTmpls {
 		reByID[reTmpls[i].id] = &reTmpls[i]
 	}
@@ -182,12 +190,41 @@ var reModes = []string{
 	"nested",   // T inside a function called from a function: (defun G (x) (list (F x) (F (- 3 x))))
 }
 
-var reOrders = []string{"121", "212"}
+// reOrders: the input sequences. "Evaluated for the first or the hundredth time": the same code is run N times,
+// N in {1,2,3,5,17}, with a constant input (a^N) and with alternating inputs (abab..); and, because the in-place
+// compilation of a form is STAGED (a branch is compiled when it is first taken), every branch is taken for the first
+// time at every position k <= 5: a^(k-1) b a b. x in {1,2} selects the branch in every template that has one.
+var reOrders = reSequences()
+
+var reRunCounts = []int{1, 2, 3, 5, 17}
+
+func reSequences() (out []string) {
+	seen := map[string]bool{}
+	add := func(s string) {
+		if !seen[s] {
+			seen[s] = true
+			out = append(out, s)
+		}
+	}
+	add("121")
+	add("212")
+	for _, a := range []string{"1", "2"} {
+		b := string(rune('1' + '2' - a[0]))
+		for _, n := range reRunCounts {
+			add(strings.Repeat(a, n))
+			add((strings.Repeat(a+b, n/2+1))[:n])
+		}
+		for k := 2; k <= 5; k++ {
+			add(strings.Repeat(a, k-1) + b + a + b)
+		}
+	}
+	return
+}
 
 func enumReeval(tier string, emit func(string)) {
-	for _, t := range reTmpls {
-		for _, m := range reModes {
-			for _, o := range reOrders {
+	for _, o := range reOrders {
+		for _, t := range reTmpls {
+			for _, m := range reModes {
 				emit("reeval|" + t.id + "|" + m + "|" + o)
 			}
 		}
@@ -277,6 +314,9 @@ func execReeval(spec string) (res engine.Result) {
 	for _, v := range vals {
 		if _, has := want[v]; !has {
 			want[v] = reFresh(t, mode, v, uniqFor())
+		}
+		if _, has := want[3-v]; !has && mode == "nested" {
+			want[3-v] = reFresh(t, mode, 3-v, uniqFor()) // the nested mode calls the function with x and with 3-x
 		}
 	}
 	if want[1].err != nil && want[2].err != nil {
@@ -388,6 +428,13 @@ func execReeval(spec string) (res engine.Result) {
 	res.Outcome = strings.Join(obs, " ; ")
 	res.Hit("re-evaluated-under-new-bindings")
 	res.Hit("reeval-cases")
+	res.Hit(fmt.Sprintf("reeval-runs-%d", len(vals)))
+	if first := strings.IndexByte(order, order[0]^3); 0 <= first {
+		// the position (1-based) at which the second input value, hence the other branch, is first seen
+		res.Hit(fmt.Sprintf("reeval-other-branch-first-at-%d", first+1))
+	} else if 1 < len(vals) {
+		res.Hit("reeval-same-input-every-time")
+	}
 	res.Nontrivial = true
 	if mode == "loop" && len(got) == 1 && got[0].err != nil {
 		for _, v := range vals {
@@ -432,6 +479,254 @@ func execReeval(spec string) (res engine.Result) {
 				kind = "keeps-first-evaluation"
 			}
 			fail(kind, fmt.Sprintf("evaluation #%d (x=%d) of  %s  => %s; a fresh copy of the code evaluated once with x=%d => %s (all evaluations: %s)", i+1, v, t.expr, gotS, v, wantS, res.Outcome))
+			return
+		}
+	}
+	return
+}
+
+// ---------------------------------------------------------------- family "quoted": code held in data
+//
+// The template is a QUOTED list that is both evaluated and inspected as data: in-place caching of compiled sub-forms
+// must not be visible in the list. Model-free: the rendering of the list (lisp.Show, which shows a function object
+// inside a list as such) before any evaluation must equal its rendering after every evaluation, and every evaluation
+// must give what a fresh copy of the code gives. Every special operator of the reeval alphabet is checked this way.
+var quotedWays = []string{
+	"evalvar",  // (setq F 'T) .. (eval F) .. F
+	"evalfn",   // (defun G () 'T) .. (eval (G)) .. (G)
+	"evallet",  // (let ((form 'T)) (list (eval form) form))   - the shape of the statement's own example
+	"macrosplice", // (setq F 'T) (defmacro M () `(progn ,F)) .. (M) .. F   - the list is part of a macro expansion
+	"evaltwice", // (setq F 'T) .. (list (eval F) (eval F)) .. F - two evaluations inside one form
+}
+
+var quotedOrders = []string{"1", "2", "11", "12", "21", "121", "212", "11212"}
+
+func enumQuoted(tier string, emit func(string)) {
+	for _, o := range quotedOrders {
+		for _, t := range reTmpls {
+			for _, w := range quotedWays {
+				emit("quoted|" + t.id + "|" + w + "|" + o)
+			}
+		}
+	}
+}
+
+func execQuoted(spec string) (res engine.Result) {
+	parts := strings.Split(spec, "|")
+	if len(parts) != 4 || reByID[parts[1]] == nil {
+		res.Fail("harness:bad-spec", spec)
+		return
+	}
+	t, way, order := reByID[parts[1]], parts[2], parts[3]
+	n := 0
+	uniqFor := func() func(string) string {
+		n++
+		p := uniqPrefix(fmt.Sprintf("%s#%d", spec, n))
+		return func(s string) string { return strings.ReplaceAll(s, "@", p) }
+	}
+	want := map[int]reOut{}
+	for _, c := range order {
+		v := int(c - '0')
+		if _, has := want[v]; !has {
+			want[v] = reFresh(t, "code", v, uniqFor())
+			if way == "macrosplice" {
+				// slip evaluates a macro expansion in a scope that is marked as a macro's (a backquote inside the
+				// expansion is evaluated again): the fresh copy is a fresh list spliced into a fresh macro, expanded once
+				u := uniqFor()
+				fs := slip.NewScope()
+				want[v] = reOut{}
+				for _, src := range []string{u(t.pre), fmt.Sprintf("(setq x %d)", v), u("(setq @form '") + u(t.expr) + ")",
+					"(defmacro " + u("@qm") + " () `(progn ," + u("@form") + "))", u("(@qm)")} {
+					if src != "" {
+						if want[v] = reRun(fs, src); want[v].err != nil {
+							break
+						}
+					}
+				}
+			}
+		}
+	}
+	// the signature names the DOOR through which the data reaches the evaluator (eval / a macro expansion), not the way
+	// the data is held: one defect per operator and door
+	door := "eval"
+	if way == "macrosplice" {
+		door = "macro-expansion"
+	}
+	fail := func(kind, detail string) {
+		res.Fail(fmt.Sprintf("quoted op=%s door=%s kind=%s", t.op, door, kind), spec+": "+detail)
+	}
+	uniq := uniqFor()
+	scope := slip.NewScope()
+	if t.pre != "" {
+		if o := reRun(scope, uniq(t.pre)); o.err != nil {
+			fail("prelude-error", o.String())
+			return
+		}
+	}
+	expr := uniq(t.expr)
+	var setup []string
+	var get, eval string
+	switch way {
+	case "evalvar":
+		setup, get, eval = []string{uniq("(setq @form '") + expr + ")"}, uniq("@form"), uniq("(eval @form)")
+	case "evaltwice":
+		setup, get, eval = []string{uniq("(setq @form '") + expr + ")"}, uniq("@form"), uniq("(car (list (eval @form) (eval @form)))")
+	case "evalfn":
+		setup, get, eval = []string{uniq("(defun @qf () '") + expr + ")"}, uniq("(@qf)"), uniq("(eval (@qf))")
+	case "macrosplice":
+		setup, get, eval = []string{uniq("(setq @form '") + expr + ")", "(defmacro " + uniq("@qm") + " () `(progn ," + uniq("@form") + "))"}, uniq("@form"), uniq("(@qm)")
+	case "evallet":
+		// one form does both: the data is the second element of the result
+		setup, get, eval = nil, "'"+expr, "(let ((form '"+expr+")) (list (eval form) form))"
+	default:
+		res.Fail("harness:bad-spec", spec)
+		return
+	}
+	for _, src := range setup {
+		if o := reRun(scope, src); o.err != nil {
+			fail("setup-error", src+" => "+o.String())
+			return
+		}
+	}
+	show := func() (string, *lisp.Err) {
+		obj, err := lisp.EvalIn(scope, get)
+		if err != nil {
+			return "", err
+		}
+		return lisp.Show(obj), nil
+	}
+	before, err := show()
+	if err != nil {
+		fail("setup-error", get+" => "+err.String())
+		return
+	}
+	var obs []string
+	live := false
+	for i, c := range order {
+		v := int(c - '0')
+		if o := reRun(scope, fmt.Sprintf("(setq x %d)", v)); o.err != nil {
+			fail("setq-error", o.String())
+			return
+		}
+		obj, err := lisp.EvalIn(scope, eval)
+		w := want[v]
+		var got, data string
+		switch {
+		case err != nil && err.GoFault:
+			fail("go-fault", fmt.Sprintf("evaluation #%d (x=%d) of the quoted  %s  => %s", i+1, v, t.expr, err.String()))
+			return
+		case err != nil:
+			got = "error " + err.Class
+		case way == "evallet":
+			l, ok := primary(obj).(slip.List)
+			if !ok || len(l) != 2 {
+				fail("harness-shape", lisp.Show(obj))
+				return
+			}
+			got, data = lisp.Show(primary(l[0])), lisp.Show(l[1])
+		default:
+			got = lisp.Show(primary(obj))
+		}
+		obs = append(obs, got)
+		if w.err == nil {
+			live = true
+		}
+		switch {
+		case (w.err == nil) != (err == nil):
+			fail("value-vs-error", fmt.Sprintf("evaluation #%d (x=%d) of the quoted  %s  => %s; a fresh copy of the code => %s", i+1, v, t.expr, got, w.String()))
+			return
+		case w.err == nil && got != w.val:
+			fail("differs-from-fresh-copy", fmt.Sprintf("evaluation #%d (x=%d) of the quoted  %s  => %s; a fresh copy of the code => %s (all: %s)", i+1, v, t.expr, got, w.val, strings.Join(obs, " ; ")))
+			return
+		}
+		if way != "evallet" {
+			var derr *lisp.Err
+			if data, derr = show(); derr != nil {
+				fail("data-unreadable", derr.String())
+				return
+			}
+		}
+		if err == nil && data != before {
+			fail("data-rewritten", fmt.Sprintf("after evaluation #%d (x=%d) the quoted list reads  %s ; before any evaluation it read  %s", i+1, v, data, before))
+			return
+		}
+	}
+	res.Outcome = way + ": " + strings.Join(obs, " ; ")
+	if live {
+		res.Hit("quoted-list-evaluated-and-inspected")
+		res.Hit("quoted-way-" + way)
+		res.Nontrivial = true
+	} else {
+		res.Hit("quoted-template-inert")
+	}
+	return
+}
+
+// ---------------------------------------------------------------- family "inert": forms slip does not define
+//
+// Ways of (re)binding a function name that Common Lisp has and slip (today) has not: (setf (symbol-function 'f) ..),
+// (setf (fdefinition 'f) ..), flet, labels. The statement says nothing about them; whatever happens must not be a Go
+// fault and must not depend on Code.Compile (each form evaluated from the list form against each form compiled first).
+var inertProgs = map[string][]string{
+	"setf-symbol-function": {"(defun @f1 (pa) (@u (@u (tr 'k1 pa))))", "(setf (symbol-function '@u) (lambda (ua) (+ 1 (* 2 ua))))", "(@f1 2)"},
+	"setf-fdefinition":     {"(defun @f1 (pa) (@u (@u (tr 'k1 pa))))", "(setf (fdefinition '@u) (lambda (ua) (+ 1 (* 2 ua))))", "(@f1 2)"},
+	"flet-over-late":       {"(defun @f1 (pa) (flet ((@u (fa) (* 100 fa))) (@u (@u (tr 'k1 pa)))))", "(defun @u (ua) (+ 1 (* 2 ua)))", "(@f1 2)"},
+	"labels-over-late":     {"(defun @f1 (pa) (labels ((@u (fa) (if (< fa 1) 0 (+ fa (@u (- fa 1)))))) (@u (@u (tr 'k1 pa)))))", "(defun @u (ua) (+ 1 (* 2 ua)))", "(@f1 2)"},
+	"flet-before-late":     {"(defun @u (ua) (+ 1 (* 2 ua)))", "(defun @f1 (pa) (flet ((@u (fa) (* 100 fa))) (@u (@u (tr 'k1 pa)))))", "(@f1 2)"},
+	"symbol-function-read": {"(defun @f1 (pa) (funcall (symbol-function '@u) (funcall (symbol-function '@u) (tr 'k1 pa))))", "(defun @u (ua) (+ 1 (* 2 ua)))", "(@f1 2)", "(fmakunbound '@u)", "(@f1 2)", "(defun @u (va) (+ 7 (* 2 va)))", "(@f1 2)"},
+}
+
+func inertNames() (out []string) {
+	for n := range inertProgs {
+		out = append(out, n)
+	}
+	sort.Strings(out)
+	return
+}
+
+func enumInert(tier string, emit func(string)) {
+	for _, n := range inertNames() {
+		emit("inert|" + n)
+	}
+}
+
+func execInert(spec string) (res engine.Result) {
+	forms := inertProgs[strings.TrimPrefix(spec, "inert|")]
+	if forms == nil {
+		res.Fail("harness:bad-spec", spec)
+		return
+	}
+	run := func(compile bool, tag string) ([]string, string, func(string) string) {
+		prefix := uniqPrefix(spec + tag)
+		var h []hstep
+		for i, f := range forms {
+			h = append(h, hstep{step: step{op: 'R', slot: i, src: strings.ReplaceAll(f, "@", prefix)}})
+			if compile {
+				h = append(h, hstep{step: step{op: 'C', slot: i}, label: "compile"})
+			}
+			h = append(h, hstep{step: step{op: 'E', slot: i}, label: fmt.Sprintf("form%d", i+1)})
+		}
+		generic := func(s string) string { return strings.ReplaceAll(s, prefix, "@") }
+		d, fault := slipEvalDigests(h, generic)
+		return d, fault, generic
+	}
+	name := strings.TrimPrefix(spec, "inert|")
+	plain, fault, _ := run(false, "#plain")
+	if fault != "" {
+		res.Fail("inert form="+name+" mode=eval kind=go-fault", spec+": "+fault)
+		return
+	}
+	comp, fault, _ := run(true, "#comp")
+	if fault != "" {
+		res.Fail("inert form="+name+" mode=compile kind=go-fault", spec+": "+fault)
+		return
+	}
+	res.Outcome = strings.Join(plain, " | ")
+	res.Hit("inert-forms")
+	res.Nontrivial = true
+	for i := range plain {
+		if i < len(comp) && plain[i] != comp[i] {
+			res.Fail("inert form="+name+" kind=depends-on-compile-mode", fmt.Sprintf("%s: %s evaluated from the list form => %s; compiled first => %s", spec, forms[i], plain[i], comp[i]))
 			return
 		}
 	}
